@@ -491,6 +491,20 @@ def make_module(I):
 
     reg("sum", _sum)
 
+    def _mean(I, st, v, axis=None):
+        # A1: arithmetic mean over the reals of all elements (no axis); the mean of an empty array is nan: outside the model
+        if axis is not None:
+            raise Unsupported("np.mean axis")
+        s, d = asnd(I, st, v)
+        if not d:
+            raise Unsupported("np.mean of an empty array (nan)")
+        r = 0
+        for x in d:
+            r = scalar_op(I, st, "Add", r, x)
+        return scalar_op(I, st, "Div", tofloat(r), len(d))
+
+    reg("mean", _mean)
+
     def _all(I, st, v):
         s, d = asnd(I, st, v)
         return M.conj([I.truth(x, st) for x in d])
